@@ -118,6 +118,42 @@ Proof.
   exact (conj tie_abs_accept (conj tie_rel_accept (conj tie_abs_evaluate (conj tie_rel_evaluate (conj tie_alt_evaluate tie_coalition_evaluate))))).
 Qed.
 
+(* ---- the clauses of C16 (Props/C16.v), restated of the code GENERATED from the source text: what the property says holds,
+   for every input, of the functions the translator reads off threshold.py in this run *)
+Corollary gen_C16_absolute : forall thr ae votes c,
+  In c (Gen.Threshold.AbsoluteThreshold_evaluate thr ae votes) <->
+  exists v, In (c, v) votes /\ ((thr < v)%Q \/ (ae = true /\ (v == thr)%Q)).
+Proof. intros thr ae votes c. rewrite tie_abs_evaluate. apply absolute_spec. Qed.
+
+Corollary gen_C16_relative : forall thr ae votes c,
+  In c (Gen.Threshold.RelativeThreshold_evaluate thr ae votes) <->
+  exists v, In (c, v) votes /\
+    ((thr < v / py_sum_values votes)%Q \/ (ae = true /\ (v / py_sum_values votes == thr)%Q)).
+Proof. intros thr ae votes c. rewrite tie_rel_evaluate. apply relative_spec. Qed.
+
+Corollary gen_C16_alternative : forall parts votes pg c,
+  In c (Gen.Threshold.AlternativeThresholds_evaluate (map sel_eval parts) votes pg) <->
+  exists p, In p parts /\ In c (sel_eval p votes).
+Proof. intros parts votes pg c. rewrite tie_alt_evaluate. apply alternative_spec. Qed.
+
+Corollary gen_C16_coalition : forall (evals : list (Z * sel)) (dflt : sel) (isc : C -> bool) (nmem : C -> Z) votes c,
+  NoDup (map fst votes) ->
+  (In c (Gen.Threshold.CoalitionMemberBracketer_evaluate (map (fun e => (fst e, sel_eval (snd e))) evals) (sel_eval dflt) isc nmem votes) <->
+   exists v, In (c, v) votes /\
+     In c (match find (fun e => Z.eqb (fst e) (if isc c then nmem c else 1%Z)) evals with Some e => sel_eval (snd e) votes | None => sel_eval dflt votes end)).
+Proof.
+  intros evals dflt isc nmem votes c Hnd. rewrite (tie_coalition_evaluate evals dflt isc nmem votes Hnd), bracket_eval_spec.
+  split; intros (v & Hin & H); exists v; (split; [exact Hin|]);
+    rewrite (dget_or_tabulate (fun c => if isc c then nmem c else 1%Z) votes c) in *
+      by (apply in_map_iff; exists (c, v); split; [reflexivity|exact Hin]);
+    revert H; unfold bracket_pick; generalize (if isc c then nmem c else 1%Z); intros b;
+    induction evals as [|[k s] t IH]; cbn [map find fst snd]; try (destruct (Z.eqb k b)); auto.
+Qed.
+Print Assumptions gen_C16_absolute.
+Print Assumptions gen_C16_relative.
+Print Assumptions gen_C16_alternative.
+Print Assumptions gen_C16_coalition.
+
 (* non-vacuity: the generated predicate decides the boundary case of the property text (5 of 100 at 5 %) both ways *)
 Example gen_on_threshold_accept : Gen.Threshold.RelativeThreshold_accept (1 # 20)%Q true (100 # 1)%Q (5 # 1)%Q = true.
 Proof. reflexivity. Qed.
